@@ -3,8 +3,8 @@
    the left projectors A_k are nested (A_j A_k = A_max(j,k)), the right projectors B_k are idempotent, A_j commutes with B_k for
    j <= k, all are additive and self-adjoint.  That the einsum code realises such A_k, B_k is measured by the check (DESIGN.md).
    Only theorem statements closed by `exact`, each followed by Print Assumptions. *)
-From Coq Require Import List Arith.
-From TT Require Import RingSig SumN Mat Core ProjP ProjAlgP ProjFullP FrobP OrthP Tangent TangentP.
+From Coq Require Import List Arith ZArith.
+From TT Require Import RingSig SumN Mat Core ProjP ProjAlgP ProjFullP FrobP OrthP Tangent TangentP TangentKernelP Instances.
 Import ListNotations.
 
 (* P x = x: the base point is fixed by the projection onto its own tangent space *)
@@ -106,6 +106,23 @@ Theorem C16_delta_gauge (L : mat R) (l z : core3 R) (Rm : mat R) a p : orthT l -
 Proof. exact (delta_mid_gauge L l z Rm a p). Qed.
 End Tangent.
 
+(* ---- THE BRIDGE, proved: the entries of proj_model (the model of riemannian_projection after its two QR sweeps, tied exactly to the code) are
+   sum_k [ (A_(k-1) (x) I - A_k) (x) B_k ] z + A_(d-2) z  applied to the dense entries of z, with A_m / B_k the kernels of the left interface of l and of the
+   right interface of r (KA / KB; bilinear, as the code does not conjugate).  Pure algebra of the einsum recursion - no orthogonality is used; with the
+   orthogonality of the gauges (left_projector_* above) these kernels are the commuting idempotents A_k, B_k of the operator algebra (proj_idempotent,
+   proj_selfadjoint, proj_residual_orthogonal).  Every order >= 2, mode sizes and rank profile. ---- *)
+Section KernelForm.
+Context {R : Type} {RO : RingOps R} {RL : RingLaws R}.
+Theorem C16_proj_model_kernel (l r z : tt R) idx :
+  length r = length l -> length z = length l -> length idx = length l -> 2 <= length l ->
+  map Core.nn z = map Core.nn l -> map Core.nn z = map Core.nn r ->
+  linked 1 l -> chained 1 z -> chained 1 r ->
+  (forall k, S k < length l -> chained (r1 (nth k l dflt3)) (skipn (S k) r)) ->
+  tcompat l r (deltas ones11 l r z) ->
+  entry (proj_model l r z) idx = sum_n (length l) (fun k => kterm l r z idx k).
+Proof. exact (proj_model_kernel l r z idx). Qed.
+End KernelForm.
+
 Print Assumptions C16_proj_fixes.
 Print Assumptions C16_proj_additive.
 Print Assumptions C16_tangent_ranks_le.
@@ -119,3 +136,13 @@ Print Assumptions C16_left_projector_nested.
 Print Assumptions C16_projectors_commute.
 Print Assumptions C16_tangent_entry_sum.
 Print Assumptions C16_delta_gauge.
+Print Assumptions C16_proj_model_kernel.
+(* the hypotheses are satisfiable and both sides compute: order 3, modes 2, ranks [1,2,2,1], integer cores (no orthogonality needed) *)
+Example C16_proj_model_kernel_instance :
+  let mk := fun (a n b : nat) (off : Z) => mk3 a n b (fun p i q => (Z.of_nat (p * 3 + i * 2 + q) - off)%Z) in
+  let l := [mk 1 2 2 1%Z; mk 2 2 2 3%Z; mk 2 2 1 2%Z] in
+  let r := [mk 1 2 2 2%Z; mk 2 2 2 1%Z; mk 2 2 1 4%Z] in
+  let z := [mk 1 2 2 0%Z; mk 2 2 2 5%Z; mk 2 2 1 1%Z] in
+  tcompat l r (deltas ones11 l r z) /\ linked 1 l /\ chained 1 z /\ chained 1 r /\
+  map (fun idx => entry (proj_model l r z) idx) [[0;0;0]; [1;0;1]; [1;1;1]]%nat = map (fun idx => sum_n 3 (fun k => kterm l r z idx k)) [[0;0;0]; [1;0;1]; [1;1;1]]%nat.
+Proof. vm_compute. repeat split; reflexivity. Qed.
